@@ -47,7 +47,8 @@ def r4_output_store(ctx):
     ctx.evals(len(paths))
     for p in paths:
         if p.exit[0] != "return":
-            ctx.undecided("C01.R4", loc(fi), f"notify raises on a payload event: {p.exit}")
+            ctx.violation("C01.R4", fi.qual, loc(fi), "payload event handled",
+                          f"a fetched payload (DatasetTransmitPayload) makes notify end with {p.exit[0]} {vkey(p.exit[1])[:80]}: the requested output never reaches the caller")
             continue
         outs = p.heap["state.outputs"]
         v = outs.get(D)
